@@ -34,7 +34,17 @@ pub fn run(args: &[String]) -> i32 {
     let mut total_added = 0u64;
     let mut flag_mismatch = 0u64;
     let mut most = 0usize;
+    let (mut lat, mut lon) = (lat, lon);
     for line in txt.lines() {
+        // "#R lat lon": the receiver is somewhere else from here on (a gpsd-fed client)
+        if let Some(rest) = line.strip_prefix("#R ") {
+            let v: Vec<f64> = rest.split_whitespace().filter_map(|x| x.parse().ok()).collect();
+            if v.len() == 2 {
+                lat = v[0];
+                lon = v[1];
+            }
+            continue;
+        }
         let Some(hex) = line.trim_end_matches('\r').strip_prefix('*').and_then(|l| l.strip_suffix(';')) else { continue };
         let Some(bytes) = vref::bits::unhex(hex) else { continue };
         if bytes.is_empty() || bytes.iter().all(|b| *b == 0) {
